@@ -6,6 +6,7 @@ import A816.Model.OpsTable
 import A816.Model.OpsScan
 import A816.Model.OpsParse
 import A816.Model.OpsAsm
+import A816.Model.OpsFront
 /-! Line-protocol driver: one operation per line on stdin, one canonical answer per line on stdout.
     This file contains the only `partial def` of the project (the I/O loop); no theorem imports it. -/
 open A816
@@ -34,6 +35,9 @@ def handle (line : String) : String :=
   | some r => r
   | none =>
   match Ops.handleAsm ws with
+  | some r => r
+  | none =>
+  match Ops.handleFront ws with
   | some r => r
   | none => "bad-op"
 
